@@ -23,6 +23,7 @@ RULE = (
     "strings with and without a valid header. Non-trivial: the fault is a cut that is not at the end of the file, or a "
     "replaced byte that differs from the original; distinct by sha1 of (base spec, fault)"
 )
+RULE += ' One fault case in four sends the image to standard output.'
 ASSUMPTIONS = [
     "'reports failure' = exception, SystemExit with message/non-zero code, or MAX's documented False (output removed)",
     "'never hangs' is judged as: finishes within 30 s (normal cost <= 0.6 s), re-run once with 120 s before judging",
